@@ -373,6 +373,10 @@ def run(cx):
     # packet that maps to the same slot one window later
     from props.C06 import inst_release
     inst_release(cx, "C01.n")
+    from props.shared import resync_walk
+    resync_walk(cx, "C01.o")
+    from props.C04 import inst_fragment_flags
+    inst_fragment_flags(cx, "C01.p")
 
 
 SELFTEST = [
